@@ -230,15 +230,31 @@ func nodifyStrucType(nodes []Node) Node {
 	return NewStructType(name, members)
 }
 
+// nodifyStructOrTupleType builds a struct if the tuple is followed
+// with a definition, a tuple otherwise.
+func nodifyStructOrTupleType(nodes []Node) Node {
+	if len(nodes) != 4 {
+		return fmt.Errorf("wrong tuple arguments %+v", nodes)
+	}
+	maybe, ok := nodes[3].([]Node)
+	if !ok || len(maybe) != 1 {
+		return nodifyTupleType(nodes[:3])
+	}
+	definition, ok := maybe[0].([]Node)
+	if !ok || len(definition) != 4 {
+		return fmt.Errorf("wrong definition %+v", nodes[3])
+	}
+	return nodifyStrucType(append(nodes[:3:3], definition...))
+}
+
 func init() {
 
 	var arrayType parsec.Parser
 	var mapType parsec.Parser
 	var structType parsec.Parser
-	var tupleType parsec.Parser
 
 	var declarationType = parsec.OrdChoice(nil,
-		basicType(), &mapType, &arrayType, &structType, &tupleType)
+		basicType(), &mapType, &arrayType, &structType)
 
 	arrayType = parsec.And(nodifyArrayType,
 		parsec.Atom("[", "MapStart"),
@@ -254,19 +270,21 @@ func init() {
 			typeName(),
 		))
 
-	tupleType = parsec.And(nodifyTupleType,
-		parsec.Atom("(", "TypeParameterStart"),
-		&listType,
-		parsec.Atom(")", "TypeParameterClose"))
-
-	structType = parsec.And(nodifyStrucType,
-		parsec.Atom("(", "TypeParameterStart"),
-		&listType,
-		parsec.Atom(")", "TypeParameterClose"),
+	// a struct is a tuple followed with a definition: the members
+	// are parsed only once, then the optional definition is tried
+	// (parsing the members once per alternative is exponential in
+	// the nesting depth).
+	var structDefinition = parsec.And(nil,
 		parsec.Atom("<", "TypeDefinitionStart"),
 		structName(),
 		&typeMemberList,
 		parsec.Atom(">", "TypeDefinitionClose"))
+
+	structType = parsec.And(nodifyStructOrTupleType,
+		parsec.Atom("(", "TypeParameterStart"),
+		&listType,
+		parsec.Atom(")", "TypeParameterClose"),
+		parsec.Maybe(nil, structDefinition))
 
 	mapType = parsec.And(nodifyMap,
 		parsec.Atom("{", "MapStart"),
